@@ -80,6 +80,8 @@ def make_case(prop, seed, i, tier):
         variant = "edit_resim"
     elif r < 0.40 and prop in ("C07", "C13", "C14"):
         variant = "edits"
+    elif r < 0.46 and prop == "C07":
+        variant = "reversed"          # reverse_log_information() after the run, then the cost passes
     return dict(prop=prop, i=i, source="random" + ("-frich" if kw.get("facility_rich") else "") + ("+" + variant if variant != "single" else ""),
                 spec=spec, variant=variant, vseed=rng.randrange(10 ** 9))
 
@@ -182,7 +184,7 @@ def run_case(case):
             placement_exception(m, tr, err)
             return res
     else:
-        end_now = variant != "edits"
+        end_now = variant not in ("edits", "reversed")
         I.install()
         I.set_order(case.get("order") or I.default_order(spec))
         m = B.build(spec)
@@ -202,6 +204,10 @@ def run_case(case):
             placement_exception(m, tr, err)
             return res
         res.count("steps", tr.phase_counts.get("recorded", 0))
+        if variant == "reversed":
+            m.project.reverse_log_information()
+            res.count("reversed_logs")
+            tr.end(m.project)
         if variant == "edits":
             h = Hist(spec, order=False, model=m)
             T = m.project.time
